@@ -304,12 +304,7 @@ func (j *judge) judgeCRStream(ci int, c *COut, cp *plan.CScript) {
 		if f.HasSize != has || has && f.ContentSize != want {
 			j.add("frame-options", "cr-content-size", "C%d: content size present=%v value=%d, configured present=%v value=%d", ci, f.HasSize, f.ContentSize, has, want)
 		}
-		for i, b := range f.Blocks {
-			if i < len(f.Blocks)-1 && b.DecLen != f.BlockMax {
-				j.add("frame-options", "cr-block-fill", "C%d: non-final block %d holds %d bytes, block size is %d", ci, i, b.DecLen, f.BlockMax)
-				break
-			}
-		}
+
 	} else if !optsValid(o) && c.ApplyErr.Nil {
 		j.add("invalid-option-accepted", "cr", "C%d: Apply accepted invalid options %+v", ci, o)
 	}
